@@ -21,7 +21,7 @@ Not decided: the MGLSA filter sections (mglsa.rs), the warped frequency axis, th
 decay for well-separated frequencies.
 """
 from fractions import Fraction
-from ..expr import ExprBuilder, show, stores, walk, to_poly, Poly
+from ..expr import ExprBuilder, show, stores, walk, to_poly, Poly, canon
 from ..loops import LoopSyms, loop_var_parts
 from .. import paths
 from . import common as cm
@@ -72,48 +72,120 @@ def _coef_vector(p, b, e):
     return -1
 
 
+def _coef_vector_loop(p, b, eb, l, pushes_out=None):
+    """loop form of the factor vector held in local `l`:
+       let mut f = Vec::new(); for w in self.iter().skip(k).step_by(2) { f.push(-2.0 * w.cos()) }
+    (possibly written in a helper that was inlined).  Returns k or None."""
+    # follow plain moves back to the vector that is pushed into
+    v, n = l, 0
+    while n < 6:
+        ds = [d for d in b.defs().get(v, []) if not b.is_cleanup(d[0])]
+        if len(ds) == 1 and ds[0][1] != "term" and ds[0][2]["rv"]["k"] == "use" and ds[0][2]["rv"]["op"].get("k") in ("move", "copy") and not ds[0][2]["rv"]["op"]["place"]["proj"]:
+            v = ds[0][2]["rv"]["op"]["place"]["local"]
+            n += 1
+        else:
+            break
+    ds = [d for d in b.defs().get(v, []) if not b.is_cleanup(d[0])]
+    if not (len(ds) == 1 and ds[0][1] == "term" and cm.callee_name(ds[0][2]["callee"]).endswith("Vec::<T>::new")):
+        return None
+    ks = set()
+    npush = 0
+    for bb, t in b.calls():
+        c = t["callee"]
+        if c["k"] != "fndef" or not cm.callee_name(c).endswith("Vec::<T, A>::push") or len(t["args"]) != 2:
+            continue
+        rl = t["args"][0]["place"]["local"] if t["args"][0].get("k") in ("move", "copy") else None
+        base = [d[2]["rv"]["place"]["local"] for d in b.defs().get(rl, []) if d[1] != "term" and d[2]["rv"]["k"] == "ref"] if rl is not None else []
+        if not base or base[0] != v:
+            continue
+        npush += 1
+        val = eb.at(bb).op(t["args"][1])
+        if not (val[0] == "bin" and val[1] == "Mul" and {show(val[2]), show(val[3])} >= {"-2.0"}):
+            return None
+        cs = [x for x in (val[2], val[3]) if x[0] == "call" and x[1] == "f64::cos"]
+        if len(cs) != 1:
+            return None
+        el = cs[0][2][0]
+        # element of self.iter().skip(k).step_by(2)
+        if not (el[0] == "field" and el[2] == "0" and el[1][0] == "variant" and el[1][1][0] == "call" and "StepBy" in el[1][1][1] and el[1][1][1].endswith("::next")):
+            return None
+        sb = el[1][1][2][0]
+        if not (sb[0] == "call" and sb[1].endswith("Iterator::step_by") and sb[2][1][0] == "c" and sb[2][1][1] == 2):
+            return None
+        gs = paths.guards(b, bb, eb)
+        somes = [g for g in gs if g[0] != "none"]
+        # own iterator's Some; exits (`none`) of earlier loops may dominate as well
+        if not (len(somes) == 1 and somes[0][0] == "some" and somes[0][1] == el[1][1]):
+            return None
+        if pushes_out is not None:
+            pushes_out.add(bb)
+            pushes_out.add(show(cs[0]))
+        k_ = [k for k in range(0, 4) if _tail_from(sb[2][0], k)]
+        if not k_:
+            return None
+        ks.add(k_[0])
+    if npush == 1 and len(ks) == 1:
+        return ks.pop()
+    return None
+
+
 def r6_mglsa(ctx, p):
-    """R6: one all-pole section with warped delays (dff), cascaded `stage` times (df)"""
-    ctx.rule("C13-R6", "MGLSA section dff: y = d[0]*c[1] + sum_{t=1}^{len-2} d[t]*c[t+1] with d[t] += alpha*(d[t+1] - d[t-1]) applied first; x -= y; delay line shifted d[t] <- d[t-1] for t = len-1 down to 1; d[0] <- alpha*d[0] + (1 - alpha^2)*x; df runs dff once per section 0..d.len(); the filter has `stage` sections of nmcp delays")
+    """R6: one all-pole section with warped delays (dff), cascaded `stage` times (df).  Roles are
+    taken from the types: x is the `&mut f64` parameter, c the GeneralizedCoefficients parameter, d
+    whatever f64 sequence dff stores into by index, alpha the f64 parameter that multiplies the warp
+    difference; `1 - alpha^2` may be computed in dff or handed in by df."""
+    ctx.rule("C13-R6", "MGLSA section dff: y = d[0]*c[1] + sum_{t=1}^{len-2} d[t]*c[t+1] with d[t] += alpha*(d[t+1] - d[t-1]) applied first; x -= y; delay line shifted d[t] <- d[t-1] for t = len-1 down to 1; d[0] <- alpha*d[0] + (1 - alpha^2)*x; df runs dff once per section of self.d; the filter has `stage` sections of nmcp delays")
     MG = "vocoder::mglsa::MelGeneralizedLogSpectrumApproximation::"
     b = cm.body_or_fail(ctx, p, "C13-R6", MG + "dff")
     if b is None:
         return
     eb = ExprBuilder(b)
+    xl = [l for l in range(1, b.argc + 1) if b.local_ty(l).replace(" ", "") == "&mutf64"]
+    cl = [l for l in range(1, b.argc + 1) if "GeneralizedCoefficients" in b.local_ty(l)]
+    fl = [l for l in range(1, b.argc + 1) if b.local_ty(l) == "f64"]
+    if len(xl) != 1 or len(cl) != 1 or not fl:
+        ctx.fail("C13-R6", b.path, "signature", "cannot identify the sample (&mut f64), coefficient and alpha parameters of dff", b.loc())
+        return
+    is_x = lambda e: e[0] == "arg" and e[1] == xl[0]
+    is_c = lambda e: e[0] == "arg" and e[1] == cl[0]
 
     def atomize(e):
-        if e[0] == "len" and show(e[1]) == "coefficients":
+        if e[0] == "len" and is_c(e[1]):
             return ("sym", "LEN")
         return None
     syms = LoopSyms(atomize)
     LEN = Poly.atom(("sym", "LEN"))
     one = Poly.const(1)
-
-    def is_d(e):
-        return e[0] == "idx" and e[1][0] == "field" and e[1][2] == "d" and e[1][1][0] == "arg" and e[1][1][1] == 1 and e[2][0] == "arg"
+    sts = stores(b, eb)
+    ctx.anchor("C13-R6", "stores in dff", len(sts), 3, b.loc())
+    dbase = None
+    for bb, i, st, tgt, root, chain, val in sts:
+        if tgt[0] == "idx" and not is_x(tgt[1]) and dbase is None:
+            dbase = canon(tgt[1])
+    is_d = lambda e: dbase is not None and canon(e) == dbase
 
     def atoms(e):
         if e[0] == "idx" and is_d(e[1]):
             return ("D", syms.poly(e[2]).key())
-        if e[0] == "idx" and show(e[1]) == "coefficients":
+        if e[0] == "idx" and is_c(e[1]):
             return ("C", syms.poly(e[2]).key())
-        if e[0] == "arg" and e[2] == "alpha":
-            return ("alpha",)
-        if show(e) == "x":
+        if is_x(e):
             return ("x",)
+        if e[0] == "arg" and e[1] in fl:
+            return ("P", e[1])
         return syms.atomize(e)
     D = lambda pol: Poly.atom(("D", pol.key()))
     C = lambda pol: Poly.atom(("C", pol.key()))
-    AL = Poly.atom(("alpha",))
     X = Poly.atom(("x",))
+    P = lambda l: Poly.atom(("P", l))
     got = {}
-    sts = stores(b, eb)
-    ctx.anchor("C13-R6", "stores in dff", len(sts), 3, b.loc())
-    lv_w = lv_s = None
+    lv_w = None
+    alpha_l = None
+    aa_l = "?"
     for bb, i, st, tgt, root, chain, val in sts:
         loc = cm.loc_of(st["span"])
-        if show(tgt) == "x":
-            y = val[3] if val[0] == "bin" and val[1] == "Sub" and show(val[2]) == "x" else None
+        if is_x(tgt):
+            y = val[3] if val[0] == "bin" and val[1] == "Sub" and is_x(val[2]) else None
             got["x"] = (bb, y)
             continue
         if not (tgt[0] == "idx" and is_d(tgt[1])):
@@ -125,7 +197,9 @@ def r6_mglsa(ctx, p):
         if lv is not None and ip == syms.lv(lv):
             t = syms.lv(lv)
             inf = syms.info[lv]
-            if vp == D(t) + AL * (D(t + one) - D(t - one)):
+            hit = [l for l in fl if vp == D(t) + P(l) * (D(t + one) - D(t - one))]
+            if hit:
+                alpha_l = hit[0]
                 okr = inf["dir"] == "up" and inf["start"] == one and inf["end"] == frozenset([LEN - one])
                 got["warp"] = (bb, okr, syms.describe(lv))
                 lv_w = lv
@@ -135,10 +209,22 @@ def r6_mglsa(ctx, p):
             else:
                 ctx.fail("C13-R6", b.path, "delay update", "d[t] <- %s is neither the warp update d[t] + alpha*(d[t+1] - d[t-1]) nor the shift d[t-1]" % vp, loc)
         elif not ip.t:
-            if vp == AL * D(Poly.const(0)) + (one - AL * AL) * X:
-                got["d0"] = (bb, True)
+            got["d0_raw"] = (bb, vp, loc)
+    if "d0_raw" in got:
+        bb0, vp, loc = got["d0_raw"]
+        okd = False
+        if alpha_l is not None:
+            A = P(alpha_l)
+            if vp == A * D(Poly.const(0)) + (one - A * A) * X:
+                okd, aa_l = True, None
             else:
-                ctx.fail("C13-R6", b.path, "d[0]", "d[0] <- %s, expected alpha*d[0] + (1 - alpha^2)*x" % vp, loc)
+                for l in fl:
+                    if l != alpha_l and vp == A * D(Poly.const(0)) + P(l) * X:
+                        okd, aa_l = True, l
+        if okd:
+            got["d0"] = (bb0, True)
+        else:
+            ctx.fail("C13-R6", b.path, "d[0]", "d[0] <- %s, expected alpha*d[0] + (1 - alpha^2)*x" % vp, loc)
     # block-copy form of the shift: d.copy_within(0..len-1, 1)
     for bb, t in b.calls():
         c = t["callee"]
@@ -166,33 +252,56 @@ def r6_mglsa(ctx, p):
     for k, what in (("warp", "warp update d[t] += alpha*(d[t+1] - d[t-1]) for t in 1..len-1"), ("shift", "delay shift d[t] <- d[t-1] for t = len-1 down to 1"), ("d0", "d[0] <- alpha*d[0] + (1 - alpha^2)*x")):
         v = got.get(k)
         if v is None:
-            ctx.fail("C13-R6", b.path, "missing " + k, "not found: " + what, b.loc())
+            if not (k == "d0" and "d0_raw" in got):
+                ctx.fail("C13-R6", b.path, "missing " + k, "not found: " + what, b.loc())
         elif not v[1]:
             ctx.fail("C13-R6", b.path, "range of " + k, "%s runs over `%s`: the last delay element would never be written / read" % (what, v[2] if len(v) > 2 else "?"), b.loc())
         else:
             ctx.ok("C13-R6", what, b.loc())
     # order: warp loop, x, shift, d[0]
-    dom = b.dominators()
     seq = [got.get(k, (None,))[0] for k in ("warp", "x", "shift", "d0")]
     if all(x is not None for x in seq) and all(not b.can_reach(seq[j + 1], seq[j]) or seq[j] == seq[j + 1] for j in range(3)) and all(b.can_reach(seq[j], seq[j + 1]) for j in range(3)):
         ctx.ok("C13-R6", "order: warp/accumulate, then x -= y, then the shift, then d[0]", b.loc())
-    else:
+    elif all(x is not None for x in seq):
         ctx.fail("C13-R6", b.path, "order", "the four steps of the section are not in the order warp, output, shift, d[0]", b.loc())
-    # df: every section once
+    # df: every section once, with the same sample / alpha / coefficients (and aa = 1 - alpha^2 if handed in)
     df = cm.body_or_fail(ctx, p, "C13-R6", MG + "df")
     if df is not None:
         deb = ExprBuilder(df)
         calls = cm.local_calls(df, p, exact=MG + "dff")
         good = False
+        why = "dff is called %d times" % len(calls)
         if len(calls) == 1:
             cbb, ct = calls[0]
-            args = [deb.at(cbb).op(a) for a in ct["args"]]
-            lvp = loop_var_parts(args[4]) if len(args) == 5 else None
-            good = lvp is not None and lvp[0] == "up" and show(lvp[1]) == "0" and show(lvp[2]) in ("len(self.d)",) and [show(a) for a in args[1:4]] == ["x", "alpha", "coefficients"]
+            args = {k + 1: deb.at(cbb).op(a) for k, a in enumerate(ct["args"])}
+            gs = paths.guards(df, cbb, deb)
+            dfx = [l for l in range(1, df.argc + 1) if df.local_ty(l).replace(" ", "") == "&mutf64"]
+            dfc = [l for l in range(1, df.argc + 1) if "GeneralizedCoefficients" in df.local_ty(l)]
+            dfa = [l for l in range(1, df.argc + 1) if df.local_ty(l) == "f64"]
+            same = dfx and dfc and dfa and args.get(xl[0]) == ("arg", dfx[0], df.local_name(dfx[0])) and args.get(cl[0]) == ("arg", dfc[0], df.local_name(dfc[0])) \
+                and alpha_l is not None and args.get(alpha_l) == ("arg", dfa[0], df.local_name(dfa[0]))
+            if aa_l not in (None, "?") and same:
+                al = Poly.atom(("AL",))
+                same = to_poly(args.get(aa_l), lambda e: ("AL",) if e == ("arg", dfa[0], df.local_name(dfa[0])) else None) == one - al * al
+                if not same:
+                    why = "the value handed in for 1 - alpha^2 is %s" % show(args.get(aa_l))[:80]
+            # one plain traversal of self.d: for i in 0..self.d.len() with section i, or for d in self.d.iter_mut()
+            plain = False
+            if len(gs) == 1 and gs[0][0] == "some":
+                gsx = show(gs[0][1])
+                if "Range{start: 0, end: len(self.d)}" in gsx:
+                    sec = [a for k, a in args.items() if loop_var_parts(a) is not None]
+                    selfd = [a for k, a in args.items() if show(a) == "self"]
+                    plain = len(sec) == 1 and bool(selfd)
+                elif gsx.endswith("::next(self.d)") and "IterMut" in gsx:
+                    plain = any(show(a) == "(%s as Some).0" % gsx for a in args.values())
+            good = bool(same) and plain
+            if not plain:
+                why = "the call is not in one plain loop over the sections of self.d"
         if good:
-            ctx.ok("C13-R6", "df: dff(x, alpha, coefficients, i) for i in 0..self.d.len()", df.loc())
+            ctx.ok("C13-R6", "df: one dff per section of self.d, with the same sample, alpha and coefficients", df.loc())
         else:
-            ctx.fail("C13-R6", df.path, "cascade", "df does not run every section exactly once with the same input/alpha/coefficients", df.loc())
+            ctx.fail("C13-R6", df.path, "cascade", "df does not run every section exactly once with the same input/alpha/coefficients (%s)" % why, df.loc())
     nw = cm.body_or_fail(ctx, p, "C13-R6", MG + "new")
     if nw is not None:
         r = ExprBuilder(nw).local(0)
@@ -421,10 +530,15 @@ def run(ctx):
             ctx.fail("C13-R1", b.path, "order", "the LPC polynomial is not built with order len - 1: its buffer is %s (the gain term would be counted as a frequency)" % (show(bf)[:100] if ret[0] == "agg" else show(ret)[:100]), b.loc())
         # ---- R1 (b): coefficient vectors
         coef = {}
+        loop_pushes = set()
         for l, d in enumerate(b.locals):
             if l > b.argc and d.get("name"):
                 for e in eb.def_exprs(l):
                     k = _coef_vector(p, b, e)
+                    if k is not None:
+                        coef[l] = k
+                if l not in coef and str(d.get("ty", "")).startswith("std::vec::Vec<f64"):
+                    k = _coef_vector_loop(p, b, ExprBuilder(b), l, loop_pushes)
                     if k is not None:
                         coef[l] = k
         starts = sorted(coef.values())
@@ -435,9 +549,11 @@ def run(ctx):
         # no other use of self's elements
         other = []
         for bb, t in b.calls():
+            if bb in loop_pushes:
+                continue
             e = eb.at(bb).call(t)
             for x in walk(e):
-                if x[0] == "call" and x[1] == "f64::cos":
+                if x[0] == "call" and x[1] == "f64::cos" and show(x) not in loop_pushes:
                     other.append(show(x)[:60])
         if other:
             ctx.fail("C13-R1", b.path, "cosine outside the factor vectors", "cos() applied outside the two factor vectors: %s" % other, b.loc())
